@@ -59,6 +59,8 @@ func (f *lgFile) node() *lgNode {
 			return f.from.node()
 		}
 		return &lgNode{kind: "child", sub: f.from.node(), name: f.name}
+	case "attach":
+		return &lgNode{kind: "tree"}
 	}
 	return &lgNode{kind: "var", name: f.name}
 }
@@ -72,6 +74,11 @@ type lgVal struct {
 	n    int
 	b    bool
 	text string
+	// guarded maps (and aliases of them): which map, which mutex guards it
+	mapName string
+	want    lgLock
+	elem0   string   // one-element slice x[i:i+1]: text of its element
+	tuple   []*lgVal // results of an inlined call
 }
 
 type lgEnv struct {
@@ -101,6 +108,9 @@ func (e *lgEnv) set(n string, v *lgVal, define bool) {
 }
 
 type lgFrame struct {
+	rets      [][]*lgVal // evaluated results of each return statement
+	parent    *lgFrame
+	isClosure bool
 	scope     string // "" in the root function and its closures, else the inlined function's key
 	key       string
 	recvName  string
@@ -138,6 +148,8 @@ type lgInterp struct {
 	root           string
 	lenient        bool
 	outsideLockers []string
+	interesting    map[*ast.FuncDecl]bool
+	noWait         int // inside the communication clauses of a select
 }
 
 const (
@@ -176,7 +188,12 @@ func (in *lgInterp) load() error {
 		}
 	}
 	// functions of p9 outside the interpreted files that take locks: must be the known ones
-	known := map[string]bool{"server.go": true, "path_tree.go": true, "handlers.go": true, "client.go": true, "pool.go": true}
+	// every file is interpreted now (server side) or is a client-side root file; kept as a cross-check:
+	// a function that locks must be reachable by the interpreter, i.e. live in one of the analysed files
+	known := map[string]bool{}
+	for _, fd := range in.all["p9"] {
+		known[in.declFile[fd]] = true
+	}
 	for k, fd := range in.all["p9"] {
 		if known[in.declFile[fd]] || fd.Body == nil {
 			continue
@@ -206,6 +223,94 @@ func (in *lgInterp) selectDecls(dir string, files ...string) {
 			}
 		}
 	}
+	in.markInteresting()
+}
+
+// selectAllExcept: every non-test file of the package except the named ones.
+func (in *lgInterp) selectAllExcept(dir string, except ...string) {
+	in.decls = map[string]*ast.FuncDecl{}
+	for k, fd := range in.all[dir] {
+		skip := false
+		for _, f := range except {
+			if in.declFile[fd] == f {
+				skip = true
+			}
+		}
+		if !skip {
+			in.decls[k] = fd
+		}
+	}
+	in.markInteresting()
+}
+
+// markInteresting: the functions whose bodies (transitively, by callee name) touch a mutex, a File
+// method name, a guarded map, fidRef.opened, a fidRef literal, a channel receive or a WaitGroup.
+// A call that could resolve to several methods is only ambiguous among these.
+func (in *lgInterp) markInteresting() {
+	in.interesting = map[*ast.FuncDecl]bool{}
+	calls := map[*ast.FuncDecl]map[string]bool{}
+	for _, fd := range in.decls {
+		if fd.Body == nil {
+			continue
+		}
+		cs := map[string]bool{}
+		hit := false
+		ast.Inspect(fd.Body, func(n ast.Node) bool {
+			switch x := n.(type) {
+			case *ast.SelectorExpr:
+				nm := x.Sel.Name
+				if _, g := lgGuardedMaps[nm]; g || nm == "opened" {
+					hit = true
+				}
+				if inner, ok := x.X.(*ast.SelectorExpr); ok && inner.Sel.Name == "file" {
+					hit = true // x.file.M, called or taken as a method value
+				}
+			case *ast.CallExpr:
+				if id, ok := x.Fun.(*ast.Ident); ok {
+					cs[id.Name] = true
+				}
+				if se, ok := x.Fun.(*ast.SelectorExpr); ok {
+					nm := se.Sel.Name
+					cs[nm] = true
+					if in.fileMethods[nm] || nm == "Lock" || nm == "RLock" || nm == "Unlock" || nm == "RUnlock" || nm == "Wait" || nm == "TryLock" || nm == "TryRLock" {
+						hit = true
+					}
+				}
+			case *ast.CompositeLit:
+				if types.ExprString(x.Type) == "fidRef" {
+					hit = true
+				}
+			case *ast.UnaryExpr:
+				if x.Op == token.ARROW {
+					hit = true
+				}
+			}
+			return true
+		})
+		calls[fd] = cs
+		if hit {
+			in.interesting[fd] = true
+		}
+	}
+	for changed := true; changed; {
+		changed = false
+		names := map[string]bool{}
+		for fd := range in.interesting {
+			names[fd.Name.Name] = true
+		}
+		for fd, cs := range calls {
+			if in.interesting[fd] {
+				continue
+			}
+			for c := range cs {
+				if names[c] {
+					in.interesting[fd] = true
+					changed = true
+					break
+				}
+			}
+		}
+	}
 }
 
 func (in *lgInterp) runAll() ([]string, error) {
@@ -218,15 +323,23 @@ func (in *lgInterp) runAll() ([]string, error) {
 			}
 			in.root, in.lenient, in.held, in.facts, in.stack, in.alias, in.pre, in.path = k, lenient, nil, nil, nil, nil, nil, nil
 			roots = append(roots, k)
+			// canonical names, independent of how the source spells its variables: the message is "msg", the connection "cs"
 			recv := &lgVal{kind: "other", text: "self"}
 			if fd.Recv != nil && len(fd.Recv.List[0].Names) == 1 {
-				recv = &lgVal{kind: "other", text: fd.Recv.List[0].Names[0].Name}
+				recv = &lgVal{kind: "other", text: "msg"}
+				if recvTypeName(fd.Recv.List[0].Type) == "connState" {
+					recv = &lgVal{kind: "other", text: "cs"}
+				}
 			}
 			var args []*lgVal
 			if fd.Type.Params != nil {
 				for _, f := range fd.Type.Params.List {
-					for _, n := range f.Names {
-						args = append(args, &lgVal{kind: "other", text: n.Name})
+					for range f.Names {
+						t := "arg"
+						if recvTypeName(f.Type) == "connState" {
+							t = "cs"
+						}
+						args = append(args, &lgVal{kind: "other", text: t})
 					}
 				}
 			}
@@ -239,7 +352,8 @@ func (in *lgInterp) runAll() ([]string, error) {
 		}
 		return nil
 	}
-	in.selectDecls("p9", "server.go", "path_tree.go", "handlers.go")
+	// the server side: every non-test file of package p9 except the client's (analysed as roots of their own below)
+	in.selectAllExcept("p9", "client.go", "client_file.go", "pool.go")
 	var hs []string
 	for k, fd := range in.decls {
 		if strings.HasSuffix(k, ".handle") && in.declFile[fd] == "handlers.go" {
@@ -323,12 +437,7 @@ func lgToRef(v *lgVal) *lgRef {
 }
 
 // lgNameText names a path component: the caller's text when the expression is a parameter.
-func lgNameText(x ast.Expr, v *lgVal) string {
-	if _, ok := x.(*ast.Ident); ok && v != nil && v.kind == "other" && v.text != "" {
-		return v.text
-	}
-	return types.ExprString(x)
-}
+func lgNameText(x ast.Expr, v *lgVal) string { return lgValText(x, v) }
 
 func (in *lgInterp) canon(n *lgNode) *lgNode {
 	for _, a := range in.alias {
@@ -372,7 +481,7 @@ func (in *lgInterp) lockOf(x ast.Expr, env *lgEnv, fr *lgFrame) (lgLock, bool, e
 		}
 		return lgLock{class: cl, owner: fr.recvType + "." + se.Sel.Name}, true, nil
 	}
-	return lgLock{class: cl, owner: types.ExprString(se.X)}, true, nil
+	return lgLock{class: cl, owner: lgOwnerText(se.X, ov)}, true, nil
 }
 
 // ---- expressions ---------------------------------------------------------------------------------
@@ -450,15 +559,32 @@ func (in *lgInterp) eval(x ast.Expr, env *lgEnv, fr *lgFrame) (*lgVal, error) {
 			return other(), nil
 		}
 		if _, ok := lgGuardedMaps[e.Sel.Name]; ok {
-			if err := in.access(e, v, false, fr); err != nil {
+			want, isMap, err := in.access(e, v, false, fr)
+			if err != nil {
 				return nil, err
 			}
-			if e.Sel.Name == "childRefs" {
-				return &lgVal{kind: "refset", node: lgToNode(v), text: types.ExprString(x)}, nil
+			if isMap {
+				k := "gmap"
+				if e.Sel.Name == "childRefs" {
+					k = "refset"
+				} else if e.Sel.Name == "childNodes" {
+					k = "nodeset"
+				}
+				return &lgVal{kind: k, node: in.canon(lgToNode(v)), text: types.ExprString(x), mapName: e.Sel.Name, want: want}, nil
 			}
-			if e.Sel.Name == "childNodes" {
-				return &lgVal{kind: "nodeset", node: lgToNode(v), text: types.ExprString(x)}, nil
+		}
+		if in.fileMethods[e.Sel.Name] && v.kind == "file" && !in.lenient {
+			return nil, in.refuse(e.Pos(), "method value %s of a File (call it directly)", e.Sel.Name)
+		}
+		if _, isMu := lgMutexClass[e.Sel.Name]; !isMu {
+			if se2, ok := e.X.(*ast.SelectorExpr); ok {
+				if _, isMu2 := lgMutexClass[se2.Sel.Name]; isMu2 && !in.lenient {
+					return nil, in.refuse(e.Pos(), "method value / field %s of a mutex", e.Sel.Name)
+				}
 			}
+		}
+		if v.kind == "other" && v.text != "" {
+			return &lgVal{kind: "other", text: v.text + "." + e.Sel.Name}, nil
 		}
 		return other(), nil
 	case *ast.IndexExpr:
@@ -466,14 +592,30 @@ func (in *lgInterp) eval(x ast.Expr, env *lgEnv, fr *lgFrame) (*lgVal, error) {
 		if err != nil {
 			return nil, err
 		}
-		if _, err := in.eval(e.Index, env, fr); err != nil {
+		iv, err := in.eval(e.Index, env, fr)
+		if err != nil {
 			return nil, err
+		}
+		in.mapUse(e.Lbrack, v, false)
+		itext := "*"
+		if iv.kind == "int" {
+			itext = iv.text
 		}
 		if v.kind == "refset" {
 			return v, nil
 		}
 		if v.kind == "nodeset" {
-			return &lgVal{kind: "node", node: &lgNode{kind: "child", sub: v.node, name: types.ExprString(e.Index)}}, nil
+			return &lgVal{kind: "node", node: &lgNode{kind: "child", sub: v.node, name: lgValText(e.Index, iv)}}, nil
+		}
+		if v.kind == "gmap" && v.mapName == "fids" {
+			// the fidRef a protocol fid field denotes: named by that field
+			return &lgVal{kind: "ref", ref: &lgRef{kind: "name", name: "fid:" + strings.TrimPrefix(lgValText(e.Index, iv), "msg.")}}, nil
+		}
+		if v.kind == "slice" && v.n == 1 && iv.kind == "int" && iv.n == 0 && v.elem0 != "" {
+			return &lgVal{kind: "other", text: v.elem0}, nil
+		}
+		if v.kind == "other" && v.text != "" {
+			return &lgVal{kind: "other", text: v.text + "[" + itext + "]"}, nil
 		}
 		return other(), nil
 	case *ast.SliceExpr:
@@ -489,7 +631,12 @@ func (in *lgInterp) eval(x ast.Expr, env *lgEnv, fr *lgFrame) (*lgVal, error) {
 		}
 		// x[i:i+1] has length one
 		if be, ok := e.High.(*ast.BinaryExpr); ok && e.Low != nil && be.Op == token.ADD && types.ExprString(be.X) == types.ExprString(e.Low) && types.ExprString(be.Y) == "1" {
-			return &lgVal{kind: "slice", n: 1, text: types.ExprString(x)}, nil
+			xv, _ := in.eval(e.X, env, fr)
+			base := types.ExprString(e.X)
+			if xv != nil && xv.kind == "other" && xv.text != "" {
+				base = xv.text
+			}
+			return &lgVal{kind: "slice", n: 1, text: types.ExprString(x), elem0: base + "[*]"}, nil
 		}
 		return other(), nil
 	case *ast.UnaryExpr:
@@ -497,7 +644,7 @@ func (in *lgInterp) eval(x ast.Expr, env *lgEnv, fr *lgFrame) (*lgVal, error) {
 			if _, err := in.eval(e.X, env, fr); err != nil {
 				return nil, err
 			}
-			if !in.lenient {
+			if !in.lenient && in.noWait == 0 {
 				in.site(e.Pos(), "(KWait "+CoqString("<-"+types.ExprString(e.X))+")")
 			}
 			return other(), nil
@@ -566,6 +713,50 @@ func (in *lgInterp) eval(x ast.Expr, env *lgEnv, fr *lgFrame) (*lgVal, error) {
 	case *ast.KeyValueExpr:
 		return in.eval(e.Value, env, fr)
 	case *ast.CompositeLit:
+		if types.ExprString(e.Type) == "fidRef" && !in.lenient {
+			var fileN, nodeN *lgNode
+			parent := "None"
+			for _, el := range e.Elts {
+				kv, ok := el.(*ast.KeyValueExpr)
+				if !ok {
+					return nil, in.refuse(el.Pos(), "fidRef literal without field names")
+				}
+				switch types.ExprString(kv.Key) {
+				case "file":
+					v, err := in.eval(kv.Value, env, fr)
+					if err != nil {
+						return nil, err
+					}
+					if v.kind == "file" {
+						fileN = v.file.node()
+					} else {
+						fileN = &lgNode{kind: "var", name: lgValText(kv.Value, v)}
+					}
+				case "pathNode":
+					v, err := in.eval(kv.Value, env, fr)
+					if err != nil {
+						return nil, err
+					}
+					if v.kind == "node" {
+						nodeN = v.node
+					} else {
+						nodeN = &lgNode{kind: "var", name: "expr:" + lgValText(kv.Value, v)}
+					}
+				case "parent":
+					v, err := in.eval(kv.Value, env, fr)
+					if err != nil {
+						return nil, err
+					}
+					if v.kind != "nil" {
+						parent = "(Some " + lgToRef(v).pathNode().coq() + ")"
+					}
+				}
+			}
+			if fileN == nil || nodeN == nil {
+				return nil, in.refuse(e.Pos(), "fidRef literal without file: or pathNode:")
+			}
+			in.site(e.Pos(), fmt.Sprintf("(KNew %s %s %s)", fileN.coq(), nodeN.coq(), parent))
+		}
 		for _, el := range e.Elts {
 			v, err := in.eval(el, env, fr)
 			if err != nil {
@@ -589,23 +780,45 @@ func (in *lgInterp) eval(x ast.Expr, env *lgEnv, fr *lgFrame) (*lgVal, error) {
 }
 
 // access records a guarded-map access.
-func (in *lgInterp) access(e *ast.SelectorExpr, owner *lgVal, write bool, fr *lgFrame) error {
+func (in *lgInterp) access(e *ast.SelectorExpr, owner *lgVal, write bool, fr *lgFrame) (lgLock, bool, error) {
 	m := e.Sel.Name
 	d := lgGuardedMaps[m]
 	var want lgLock
 	switch d {
 	case "Fid", "Tag":
-		want = lgLock{class: d, owner: types.ExprString(e.X)}
+		want = lgLock{class: d, owner: lgOwnerText(e.X, owner)}
 	case "Child":
 		want = lgLock{class: "Child", node: in.canon(lgToNode(owner))}
 	default:
 		if d != "Client.pendingMu" && !strings.HasPrefix(d, fr.recvType+".") {
-			return nil // a field of the same name on another type
+			return want, false, nil // a field of the same name on another type
 		}
 		want = lgLock{class: "Other", owner: d}
 	}
 	in.site(e.Pos(), fmt.Sprintf("(KAccess %s %s %s)", CoqString(m), want.coq(), lgBool(write)))
-	return nil
+	return want, true, nil
+}
+
+// mapUse records the use (index, range, len, delete, assignment) of a guarded map reached through a value, alias included.
+func (in *lgInterp) mapUse(p token.Pos, v *lgVal, write bool) {
+	if v != nil && v.mapName != "" {
+		in.site(p, fmt.Sprintf("(KAccess %s %s %s)", CoqString(v.mapName), v.want.coq(), lgBool(write)))
+	}
+}
+
+func lgOwnerText(x ast.Expr, v *lgVal) string {
+	if v != nil && v.kind == "other" && v.text != "" {
+		return v.text
+	}
+	return types.ExprString(x)
+}
+
+// lgValText: the canonical text of an evaluated expression (dataflow names), else its source text.
+func lgValText(x ast.Expr, v *lgVal) string {
+	if v != nil && v.kind == "other" && v.text != "" {
+		return v.text
+	}
+	return types.ExprString(x)
 }
 
 // lhs evaluates an assignment target (recording writes to guarded maps and to fidRef.opened).
@@ -623,10 +836,12 @@ func (in *lgInterp) lhs(x ast.Expr, env *lgEnv, fr *lgFrame) error {
 				if err != nil {
 					return err
 				}
-				return in.access(se, ov, true, fr)
+				_, _, err = in.access(se, ov, true, fr)
+				return err
 			}
 		}
-		_, err := in.eval(e.X, env, fr)
+		xv, err := in.eval(e.X, env, fr)
+		in.mapUse(e.Lbrack, xv, true)
 		return err
 	case *ast.SelectorExpr:
 		ov, err := in.eval(e.X, env, fr)
@@ -638,7 +853,8 @@ func (in *lgInterp) lhs(x ast.Expr, env *lgEnv, fr *lgFrame) error {
 			return nil
 		}
 		if _, g := lgGuardedMaps[e.Sel.Name]; g {
-			return in.access(e, ov, true, fr)
+			_, _, err := in.access(e, ov, true, fr)
+			return err
 		}
 		return nil
 	case *ast.StarExpr:
@@ -691,19 +907,27 @@ func (in *lgInterp) call(ce *ast.CallExpr, env *lgEnv, fr *lgFrame) (*lgVal, err
 					if err != nil {
 						return nil, err
 					}
-					if err := in.access(se, ov, true, fr); err != nil {
+					if _, _, err := in.access(se, ov, true, fr); err != nil {
 						return nil, err
 					}
 					_, err = in.eval(ce.Args[1], env, fr)
 					return &lgVal{kind: "other"}, err
 				}
 			}
+			mv, err := in.eval(ce.Args[0], env, fr)
+			if err != nil {
+				return nil, err
+			}
+			in.mapUse(ce.Lparen, mv, true)
+			_, err = in.eval(ce.Args[1], env, fr)
+			return &lgVal{kind: "other"}, err
 		}
 		args, err := in.evalArgs(ce.Args, env, fr)
 		if err != nil {
 			return nil, err
 		}
 		if f.Name == "len" && len(args) == 1 {
+			in.mapUse(ce.Lparen, args[0], false)
 			switch args[0].kind {
 			case "nil":
 				return &lgVal{kind: "int", n: 0}, nil
@@ -723,7 +947,7 @@ func (in *lgInterp) call(ce *ast.CallExpr, env *lgEnv, fr *lgFrame) (*lgVal, err
 			}
 			return in.opaque(ce, args)
 		}
-		if fd := in.decls[f.Name]; fd != nil && fd.Recv == nil {
+		if fd := in.decls[f.Name]; fd != nil && fd.Recv == nil && in.interesting[fd] {
 			return in.callDecl(f.Name, fd, nil, args, ce.Pos())
 		}
 		return in.opaque(ce, args)
@@ -772,10 +996,17 @@ func (in *lgInterp) call(ce *ast.CallExpr, env *lgEnv, fr *lgFrame) (*lgVal, err
 						return &lgVal{kind: "walked", file: &lgFile{kind: "walk", from: recv.file, n: 0}}, nil
 					case "slice":
 						if a.n == 1 {
-							return &lgVal{kind: "walked", file: &lgFile{kind: "walk", from: recv.file, n: 1, name: lgNameText(ce.Args[0], args[0]) + "[0]"}}, nil
+							nm := a.elem0
+							if nm == "" {
+								nm = lgNameText(ce.Args[0], args[0]) + "[0]"
+							}
+							return &lgVal{kind: "walked", file: &lgFile{kind: "walk", from: recv.file, n: 1, name: nm}}, nil
 						}
 					}
 					return nil, in.refuse(ce.Pos(), "%s with a name list of unknown length", m)
+				}
+				if m == "Create" && len(args) > 0 {
+					return &lgVal{kind: "created", file: &lgFile{kind: "walk", from: recv.file, n: 1, name: lgNameText(ce.Args[0], args[0])}}, nil
 				}
 				return in.opaque(ce, args)
 			}
@@ -792,10 +1023,11 @@ func (in *lgInterp) call(ce *ast.CallExpr, env *lgEnv, fr *lgFrame) (*lgVal, err
 		// method of the interpreted files
 		var cands []string
 		for k, fd := range in.decls {
-			if fd.Recv != nil && strings.HasSuffix(k, "."+m) {
+			if fd.Recv != nil && strings.HasSuffix(k, "."+m) && in.interesting[fd] {
 				cands = append(cands, k)
 			}
 		}
+		sortStrings(cands)
 		if len(cands) == 0 {
 			return in.opaque(ce, args)
 		}
@@ -929,6 +1161,7 @@ func (in *lgInterp) runBody(fr *lgFrame, env *lgEnv, body *ast.BlockStmt, key st
 	entry := append([]lgHeld(nil), in.held...)
 	bh := in.breakHeld
 	in.breakHeld = nil
+	defer func() { in.breakHeld = bh }()
 	if _, err := in.block(body.List, env, fr); err != nil {
 		return err
 	}
@@ -979,7 +1212,45 @@ func (in *lgInterp) callDecl(key string, fd *ast.FuncDecl, recv *lgVal, args []*
 	saveFacts := in.facts
 	err = in.runBody(fr, env, fd.Body, key, p)
 	in.facts = saveFacts
-	return &lgVal{kind: "other", text: key + "()"}, err
+	out := &lgVal{kind: "other", text: key + "()"}
+	for i := len(fr.rets) - 1; i >= 0; i-- {
+		sym := false
+		for _, v := range fr.rets[i] {
+			switch v.kind {
+			case "ref", "node", "file", "gmap", "refset", "nodeset":
+				sym = true
+			}
+		}
+		if sym {
+			if len(fr.rets[i]) == 1 {
+				return fr.rets[i][0], err
+			}
+			out = &lgVal{kind: "tuple", tuple: fr.rets[i], text: key + "()"}
+			break
+		}
+	}
+	// named results assigned in the body (qids, sf, ... = ...; return)
+	if out.kind != "tuple" && fd.Type.Results != nil {
+		var named []*lgVal
+		sym := false
+		for _, f := range fd.Type.Results.List {
+			for _, n := range f.Names {
+				v := env.vars[n.Name]
+				if v == nil {
+					v = &lgVal{kind: "other"}
+				}
+				switch v.kind {
+				case "ref", "node", "file":
+					sym = true
+				}
+				named = append(named, v)
+			}
+		}
+		if sym && len(named) > 1 {
+			out = &lgVal{kind: "tuple", tuple: named, text: key + "()"}
+		}
+	}
+	return out, err
 }
 
 func (in *lgInterp) callClosure(c *lgClosure, args []*lgVal, p token.Pos) (*lgVal, error) {
@@ -1108,8 +1379,16 @@ func (in *lgInterp) bind(lhs []ast.Expr, vals []*lgVal, define bool, env *lgEnv)
 			continue
 		}
 		switch vals[i].kind {
-		case "ref", "node", "file", "closure", "nil", "int", "bool", "slice", "refset", "nodeset":
+		case "ref", "node", "file", "closure", "nil", "int", "bool", "slice", "refset", "nodeset", "gmap":
 			env.set(id.Name, vals[i], define)
+		case "other":
+			if define && vals[i].text != "" && strings.HasPrefix(vals[i].text, "msg.") {
+				env.set(id.Name, vals[i], true)
+			} else if !define {
+				if old := env.get(id.Name); old != nil && old.kind != "closure" {
+					env.set(id.Name, &lgVal{kind: "other", text: id.Name}, false)
+				}
+			}
 		default:
 			if !define {
 				if old := env.get(id.Name); old != nil && old.kind != "closure" {
@@ -1141,15 +1420,21 @@ func (in *lgInterp) assign(s *ast.AssignStmt, env *lgEnv, fr *lgFrame) error {
 		v := vals[0]
 		vals = make([]*lgVal, len(s.Lhs))
 		switch {
+		case v.kind == "tuple":
+			copy(vals, v.tuple)
 		case v.kind == "walked": // qids, file, ... := X.Walk(names)
 			vals[1] = &lgVal{kind: "file", file: v.file}
+		case v.kind == "created": // file, qid, ... := X.Create(name, ...)
+			vals[0] = &lgVal{kind: "file", file: v.file}
+		case v.kind == "gmap" || v.kind == "ref": // x, ok := m[k]
+			vals[0] = v
 		case v.kind == "refset" || v.kind == "node": // m, ok := p.childRefs[name]
 			vals[0] = v
 		default:
 			if ce, ok := s.Rhs[0].(*ast.CallExpr); ok {
 				if se, ok := ce.Fun.(*ast.SelectorExpr); ok && se.Sel.Name == "Attach" {
 					if id, ok := s.Lhs[0].(*ast.Ident); ok {
-						vals[0] = &lgVal{kind: "file", file: &lgFile{kind: "fresh", name: id.Name}}
+						vals[0] = &lgVal{kind: "file", file: &lgFile{kind: "attach", name: id.Name}}
 					}
 				}
 			}
@@ -1228,7 +1513,9 @@ func (in *lgInterp) stmt(s ast.Stmt, env *lgEnv, fr *lgFrame) (int, error) {
 				for i, n := range vs.Names {
 					if i < len(vals) {
 						in.bind([]ast.Expr{n}, []*lgVal{vals[i]}, true, env)
-					} else if !fr.fileIdent[n.Name] && n.Name != "_" {
+					} else if fr.fileIdent[n.Name] {
+						env.vars[n.Name] = &lgVal{kind: "file", file: &lgFile{kind: "fresh", name: n.Name}, text: n.Name}
+					} else if n.Name != "_" {
 						// declared here: later assignments update this scope
 						t := n.Name
 						if fr.scope != "" {
@@ -1241,10 +1528,16 @@ func (in *lgInterp) stmt(s ast.Stmt, env *lgEnv, fr *lgFrame) (int, error) {
 		}
 		return lgNone, nil
 	case *ast.ReturnStmt:
+		var rs []*lgVal
 		for _, r := range st.Results {
-			if _, err := in.eval(r, env, fr); err != nil {
+			v, err := in.eval(r, env, fr)
+			if err != nil {
 				return lgNone, err
 			}
+			rs = append(rs, v)
+		}
+		if len(rs) > 0 {
+			fr.rets = append(fr.rets, rs)
 		}
 		return lgReturn, nil
 	case *ast.BlockStmt:
@@ -1342,16 +1635,28 @@ func (in *lgInterp) stmt(s ast.Stmt, env *lgEnv, fr *lgFrame) (int, error) {
 			if _, err := in.stmt(st.Init, env2, fr); err != nil {
 				return lgNone, err
 			}
+			for k, v := range env2.vars {
+				if v.kind == "int" || v.kind == "bool" {
+					env2.vars[k] = &lgVal{kind: "other"} // the loop variable changes
+				}
+			}
 		}
 		if _, err := in.cond(st.Cond, env2, fr); err != nil {
 			return lgNone, err
 		}
+		// the body is interpreted twice: the second pass sees what the first one assigned (doWalk: the walk
+		// position is the start fid in the first step and the fidRef just built in every later one)
 		return in.loop(s.Pos(), func() (int, error) {
-			t, err := in.block(st.Body.List, &lgEnv{vars: map[string]*lgVal{}, up: env2}, fr)
-			if err != nil || t != lgNone {
-				return t, err
+			for pass := 0; pass < 2; pass++ {
+				t, err := in.block(st.Body.List, &lgEnv{vars: map[string]*lgVal{}, up: env2}, fr)
+				if err != nil || t != lgNone {
+					return t, err
+				}
+				if t, err := in.stmt(st.Post, env2, fr); err != nil || t != lgNone {
+					return t, err
+				}
 			}
-			return in.stmt(st.Post, env2, fr)
+			return lgNone, nil
 		}, st.Cond == nil)
 	case *ast.RangeStmt:
 		v, err := in.eval(st.X, env, fr)
@@ -1359,6 +1664,7 @@ func (in *lgInterp) stmt(s ast.Stmt, env *lgEnv, fr *lgFrame) (int, error) {
 			return lgNone, err
 		}
 		env2 := &lgEnv{vars: map[string]*lgVal{}, up: env}
+		in.mapUse(st.For, v, false)
 		var kv, vv *lgVal
 		switch v.kind {
 		case "refset":
@@ -1410,8 +1716,19 @@ func (in *lgInterp) stmt(s ast.Stmt, env *lgEnv, fr *lgFrame) (int, error) {
 		return in.cases(s.Pos(), st.Body.List, false, env2, fr)
 	case *ast.SelectStmt:
 		if !in.lenient {
-			return lgNone, in.refuse(s.Pos(), "select statement in server code")
+			// a select with a default clause never blocks; one without is a blocking wait
+			hasDefault := false
+			for _, c := range st.Body.List {
+				if c.(*ast.CommClause).Comm == nil {
+					hasDefault = true
+				}
+			}
+			if !hasDefault {
+				in.site(s.Pos(), "(KWait \"select\")")
+			}
 		}
+		in.noWait++
+		defer func() { in.noWait-- }()
 		in.breakHeld = append(in.breakHeld, append([]lgHeld(nil), in.held...))
 		defer func() { in.breakHeld = in.breakHeld[:len(in.breakHeld)-1] }()
 		var alts []func() (int, error)
